@@ -31,7 +31,9 @@ COQ_TARGETS = ["Q/Extract.vo", "Props/C17.vo"]
 S_LIST = [0, 1, 2, 3, 4, 7, 8, 9, 15, 16, 17, 24, 31, 32, 33, 48, 63, 64, 65, 100, 127, 128, 129, 255, 256, 257, 511, 512,
           1000, 1023, 1024, 1025, 2047, 2048, 4095, 4096,
           # just below a power of two: req + 32 (the chained-queue item) crosses the next growth boundary
-          2016, 2024, 2032, 2040, 4064, 4072, 4080, 4088]
+          2016, 2024, 2032, 2040, 4064, 4072, 4080, 4088,
+          # 2^k - align for the large alignments: the alignment slack of `req` decides whether the next buffer size suffices
+          1920, 1984, 3968, 4032]
 A_LIST = [1, 2, 4, 8, 16, 32, 64, 128]
 CLASSES = [(s, a) for s in S_LIST for a in A_LIST]
 BOUNDARIES = [1024, 2048, 4096, 8192, 16384, 32768, 65536]
